@@ -192,6 +192,13 @@ Definition order_ok (ns : list (node U)) : bool :=
 Definition exportable (ns : list (node U)) : bool :=
   nodupb ueqb (map (@n_uuid U) ns) && forallb node_ok ns && order_ok ns.
 
+(* with --strip_uuids the rows of a node cannot be merged through the node id: one row per node *)
+Definition single_rows (ns : list (node U)) : bool := forallb (fun n => Nat.leb (List.length (n_actions n)) 1) ns.
+
+(* stage 1: flows of nodes without routers (chains, joins, cycles) *)
+Definition basic_only (ns : list (node U)) : bool :=
+  forallb (fun n => match n_kind n with NBasic _ _ => true | _ => false end) ns.
+
 (* diagnostics: 0 = exportable, 1 = node uuids, 2 = order, 10.. = why the first node that is not ok is not *)
 Definition switch_why (r : srouter U) : N :=
   if negb (nonempty (sw_operand r) && negb (str_eqb (sw_operand r) child_status_operand)) then 20
